@@ -35,7 +35,8 @@ Inductive sop :=
 
 Inductive op :=
 | Simple (o : sop)
-| AcqThen (sc : list sop)                (* acquire().addCallback(lambda _: sc) *)
+| AcqThen (sc esc : list sop)            (* acquire().addCallbacks(lambda _: sc, lambda failure: esc): re-entrant scripts run
+                                            when the acquisition is granted / when it is cancelled while pending *)
 | RunThen (sc : list sop) (f : fn).      (* run(lambda: sc; then behave as f) *)
 
 Inductive outcome := OK (v : Z) | Boom | Cancelled | BoomBase.
@@ -49,7 +50,7 @@ Inductive ev :=
 | EFnDone (j : nat)               (* run j's function result became available *)
 | EResult (j : nat) (r : outcome). (* run j's Deferred fired *)
 
-Inductive cont := CPlain (sc : list sop) | CRun (sc : list sop) (f : fn).
+Inductive cont := CPlain (sc esc : list sop) | CRun (sc : list sop) (f : fn).
 Inductive hkind := HPlain | HRunning | HPending.
 
 Inductive item := IOp (o : op) | IEndF (j : nat) (f : fn) | IResult (j : nat) (r : outcome).
@@ -98,13 +99,22 @@ Definition script_items (i : nat) (sc : list sop) : list item := map (fun o => I
 
 Definition items_of (i : nat) (c : cont) : list item :=
   match c with
-  | CPlain sc => script_items i sc
+  | CPlain sc _ => script_items i sc
   | CRun sc f => script_items i sc ++ [IEndF i f]
   end.
 
+(** the errback script of pending acquisition i *)
+Fixpoint find_cont (i : nat) (l : list (nat * cont)) : option cont :=
+  match l with
+  | [] => None
+  | (j, c) :: r => if Nat.eqb i j then Some c else find_cont i r
+  end.
+Definition errback_items (i : nat) (l : list (nat * cont)) : list item :=
+  match find_cont i l with Some (CPlain _ esc) => script_items i esc | _ => [] end.
+
 Definition add_holder (i : nat) (c : cont) (s : st) : st :=
   match c with
-  | CPlain _ => set_plain (i :: plain s) s
+  | CPlain _ _ => set_plain (i :: plain s) s
   | CRun _ _ => set_running (i :: running s) s
   end.
 
@@ -144,13 +154,14 @@ Definition fn_done (k : hkind) (j : nat) (r : outcome) (s : st) : st * list item
 
 Definition step_sop (o : sop) (s : st) : st * list item :=
   match o with
-  | SAcq => do_acquire (CPlain []) s
+  | SAcq => do_acquire (CPlain [] []) s
   | SRun f => do_acquire (CRun [] f) s
   | SRel i => if mem i (plain s) then do_release HPlain i s else (emit ENoop s, [])
   | SRelSelf => (emit ENoop s, [])
   | SCancel i =>
       if mem i (ids (waiting s))
-      then (emit (ECancel i) (set_waiting (remove_id i (waiting s)) s), [])   (* _cancelAcquire + CancelledError *)
+      then (emit (ECancel i) (set_waiting (remove_id i (waiting s)) s),          (* _cancelAcquire removes it, THEN *)
+            errback_items i (waiting s))                                          (* CancelledError: its errbacks run *)
       else if mem i (pending s)
       then fn_done HPending i Cancelled s          (* cancel() is forwarded to the function's Deferred *)
       else (emit ENoop s, [])
@@ -161,7 +172,7 @@ Definition step_sop (o : sop) (s : st) : st * list item :=
 Definition step (s : st) (it : item) : st * list item :=
   match it with
   | IOp (Simple o) => step_sop o s
-  | IOp (AcqThen sc) => do_acquire (CPlain sc) s
+  | IOp (AcqThen sc esc) => do_acquire (CPlain sc esc) s
   | IOp (RunThen sc f) => do_acquire (CRun sc f) s
   | IEndF j (FRet v) => fn_done HRunning j (OK v) s
   | IEndF j FRaise => fn_done HRunning j Boom s
@@ -205,11 +216,12 @@ Definition due (w : list item) : list nat := flat_map due_of w.
 (** work still owed: used for the termination bound *)
 Definition w_sop (o : sop) : nat := match o with SRun _ => 3 | _ => 1 end.
 Definition w_script (sc : list sop) : nat := list_sum (map w_sop sc).
-Definition w_cont (c : cont) : nat := match c with CPlain sc => w_script sc | CRun sc _ => w_script sc + 2 end.
+Definition w_cont (c : cont) : nat :=
+  match c with CPlain sc esc => w_script sc + w_script esc | CRun sc _ => w_script sc + 2 end.
 Definition w_item (it : item) : nat :=
   match it with
   | IOp (Simple o) => w_sop o
-  | IOp (AcqThen sc) => 1 + w_script sc
+  | IOp (AcqThen sc esc) => 1 + w_script sc + w_script esc
   | IOp (RunThen sc _) => 3 + w_script sc
   | IEndF _ _ => 2
   | IResult _ _ => 1
